@@ -447,7 +447,11 @@ impl Payload {
                     (format!("array-from-generator{n}"), format!("let v_src = range({n}).to_array();\nfn v_mk()->Sequence<int>{{ v_src.to_generator().to_array() }}"), 8 * n),
                     // many small native values: each one's own representation (the sequence header) is part of what is alive
                     (format!("many-one-element-arrays{n}"), format!("fn v_mk()->Sequence<Sequence<int>>{{ range({n}).map((v_i: int)->{{ [v_i] }}).to_array() }}"),
-                        n * (std::mem::size_of::<xray::builtin::sequence::XSequence<crate::world::SimWriter, crate::world::SimRng, crate::world::SimClock>>() + 8) + 8 * n),
+                        // per element: the inner array's value cell and header and its one slot, the int's value cell, the outer slot
+                        n * (2 * std::mem::size_of::<xray::xvalue::XValue<crate::world::SimWriter, crate::world::SimRng, crate::world::SimClock>>()
+                            + std::mem::size_of::<xray::builtin::sequence::XSequence<crate::world::SimWriter, crate::world::SimRng, crate::world::SimClock>>()
+                            + 8
+                            + 8)),
                     (format!("array-of-shared{n}"), format!("let v_src = range({n}).to_array();\nfn v_mk()->Sequence<int>{{ v_src.map((v_x: int)->{{v_x}}).to_array() }}"), 8 * n),
                 ]
             } else {
